@@ -30,7 +30,7 @@ SPEC = {
         "search_is_filter_partial carries the named hypotheses Search.LeafOK per key kind (ZoneFree for SINCE, FieldOK for HEADER and the "
         "envelope keys, SentParsable+HeadersOk for SENT*, non-empty view / SetSmall / NoStarAbove for UID and sequence sets); each excluded "
         "case has a witness theorem that the oracle replays on the real server (scenarios since-zone, header-dup, header-empty, "
-        "named-dup, named-empty, sent-unparsable, uid-empty-mailbox, uid-star-above, seq-beyond-count, charset-unsupported-panic)",
+        "named-dup, named-empty, sent-unparsable, uid-empty-mailbox, uid-star-above, seq-beyond-count); scenario charset-unsupported is the regression of fix 3279020",
         "the model starts at the parsed command (command.Search): number, date text and astring parsing are C10/C11/C16's (the oracle only checks that a number of 2^32 or more is answered BAD)",
         "strings.ToLower / bytes.ToLower are modelled on ASCII letters only; the oracle generates cased letters in ASCII only (non-ASCII text is caseless or lower case)",
         "every message of the view is loadable from database and store (gluon keeps messages a live state references; exercised by the "
